@@ -941,6 +941,22 @@ func definitelyDistinct(a, b *Term) bool {
 	return false
 }
 
+// iteLeaves counts the leaves of the ite tree t, giving up (returning limit) beyond limit.
+func iteLeaves(t *Term, limit int) int {
+	if t.Op != "ite" {
+		return 1
+	}
+	n := iteLeaves(t.Args[1], limit)
+	if n >= limit {
+		return limit
+	}
+	n += iteLeaves(t.Args[2], limit-n)
+	if n > limit {
+		n = limit
+	}
+	return n
+}
+
 func (c *Ctx) Select(arr, i *Term) *Term {
 	if arr.Sort.Kind != KArray {
 		panic("Select on " + arr.Sort.str)
@@ -961,7 +977,9 @@ func (c *Ctx) Select(arr, i *Term) *Term {
 	if arr.Op == "constarr" {
 		return arr.Args[0]
 	}
-	if arr.Op == "ite" && (arr.Args[1].Op == "store" || arr.Args[2].Op == "store" || arr.Args[1].Op == "constarr" || arr.Args[2].Op == "constarr") {
+	if arr.Op == "ite" && (arr.Args[1].Op == "store" || arr.Args[2].Op == "store" || arr.Args[1].Op == "constarr" || arr.Args[2].Op == "constarr" || iteLeaves(arr, 9) <= 8) {
+		// reads are pushed through small ite trees as well, so that triggers of the form (select A k)
+		// in quantified facts match reads of a merged state
 		return c.Ite(arr.Args[0], c.Select(arr.Args[1], i), c.Select(arr.Args[2], i))
 	}
 	if arr.Op == "store" {
